@@ -155,7 +155,10 @@ def main():
         os.makedirs(d, exist_ok=True)
         for f in os.listdir(d):
             if f.endswith('.patch'):
-                os.remove(os.path.join(d, f))
+                with open(os.path.join(d, f)) as fh:
+                    head = fh.readline()
+                if 'source=' not in head:       # patches delivered by sub-agents are kept
+                    os.remove(os.path.join(d, f))
     bad = 0
     for name, (prop, expect, file, pairs) in sorted(M.items()):
         src = open(os.path.join(REPO, file)).read()
